@@ -15,7 +15,7 @@ SINKS = [
     ("gen_stdout_mt", "nitro/log/sink/stdout_mt.hpp", "stdout_mt", "cout"),
     ("gen_stderr_mt", "nitro/log/sink/stderr_mt.hpp", "StdErrThreaded", "cerr"),
 ]
-GUARD_TYPE = re.compile(r"^std::(lock_guard|unique_lock|scoped_lock)<std::mutex>$")
+GUARD_TYPE = re.compile(r"^(const )?std::(lock_guard|unique_lock|scoped_lock)<std::mutex>$")
 
 
 class Unreadable(Exception):
@@ -74,6 +74,7 @@ class SinkReader:
         self.members = {c.get("id"): c for c in inner(cls)}
         self.static_keys, self.member_keys = [], []
         self.local_static_mutexes = {}   # id -> name, function-local static std::mutex declared in sink itself
+        self.aliases = {}                # id of a local `std::mutex& x = <mutex expression>;` -> the mutex it names
         self.notes = []
         self.nguards = 0
         self.all_static = True
@@ -98,48 +99,65 @@ class SinkReader:
         e = strip(e)
         k = e.get("kind")
         if k == "CXXMemberCallExpr":
+            # this->accessor()  (non-static member function)
             parts = inner(e)
             if len(parts) != 1:
                 return None
             callee = strip(parts[0])
             if callee.get("kind") != "MemberExpr" or strip(inner(callee)[0]).get("kind") != "CXXThisExpr":
                 return None
-            m = self.members.get(callee.get("referencedMemberDecl"))
-            if not m or m.get("kind") != "CXXMethodDecl" or m.get("virtual"):
+            return self.accessor(self.members.get(callee.get("referencedMemberDecl")))
+        if k == "CallExpr":
+            # accessor()  where the accessor is a STATIC member function of the class
+            parts = inner(e)
+            if len(parts) != 1:
                 return None
-            if any(c.get("kind") == "ParmVarDecl" for c in inner(m)):
+            callee = strip(parts[0])
+            ref = callee.get("referencedDecl") or {}
+            if callee.get("kind") != "DeclRefExpr" or ref.get("kind") != "CXXMethodDecl":
                 return None
-            bodies = [c for c in inner(m) if c.get("kind") == "CompoundStmt"]
-            if len(bodies) != 1:
-                return None
-            stmts = inner(bodies[0])
-            local = {}
-            for s in stmts[:-1]:
-                ds = inner(s)
-                if s.get("kind") != "DeclStmt" or len(ds) != 1 or ds[0].get("kind") != "VarDecl":
-                    return None
-                local[ds[0].get("id")] = ds[0]
-            if not stmts or stmts[-1].get("kind") != "ReturnStmt" or len(inner(stmts[-1])) != 1:
-                return None
-            r = strip(inner(stmts[-1])[0])
-            if r.get("kind") == "DeclRefExpr":
-                rid = (r.get("referencedDecl") or {}).get("id")
-                if rid in local:
-                    v = local[rid]
-                    if v.get("storageClass") == "static" and self.is_plain_mutex(v):
-                        return ("static", "%s()::%s" % (m.get("name"), v.get("name")))
-                    return None
-                return self.class_var(rid)
-            if r.get("kind") == "MemberExpr":
-                return self.member_expr(r)
-            return None
+            return self.accessor(self.members.get(ref.get("id")))
         if k == "MemberExpr":
             return self.member_expr(e)
         if k == "DeclRefExpr":
             rid = (e.get("referencedDecl") or {}).get("id")
             if rid in self.local_static_mutexes:
                 return ("static", "sink()::" + self.local_static_mutexes[rid])
+            if rid in self.aliases:
+                return self.aliases[rid]
             return self.class_var(rid)
+        return None
+
+    def accessor(self, m):
+        """a member function (static or not, any name) without parameters whose body is
+           `static std::mutex x; return x;` (one object for the whole process), or that returns a member / static member"""
+        if not m or m.get("kind") != "CXXMethodDecl" or m.get("virtual"):
+            return None
+        if any(c.get("kind") == "ParmVarDecl" for c in inner(m)):
+            return None
+        bodies = [c for c in inner(m) if c.get("kind") == "CompoundStmt"]
+        if len(bodies) != 1:
+            return None
+        stmts = inner(bodies[0])
+        local = {}
+        for st in stmts[:-1]:
+            ds = inner(st)
+            if st.get("kind") != "DeclStmt" or len(ds) != 1 or ds[0].get("kind") != "VarDecl":
+                return None
+            local[ds[0].get("id")] = ds[0]
+        if not stmts or stmts[-1].get("kind") != "ReturnStmt" or len(inner(stmts[-1])) != 1:
+            return None
+        r = strip(inner(stmts[-1])[0])
+        if r.get("kind") == "DeclRefExpr":
+            rid = (r.get("referencedDecl") or {}).get("id")
+            if rid in local:
+                v = local[rid]
+                if v.get("storageClass") == "static" and self.is_plain_mutex(v):
+                    return ("static", "%s()::%s" % (m.get("name"), v.get("name")))
+                return None
+            return self.class_var(rid)
+        if r.get("kind") == "MemberExpr" and m.get("storageClass") != "static":
+            return self.member_expr(r)
         return None
 
     def class_var(self, rid):
@@ -205,6 +223,13 @@ class SinkReader:
                 if v.get("storageClass") == "static" and self.is_plain_mutex(v):
                     self.local_static_mutexes[v.get("id")] = v.get("name")
                     return []
+                if desugared(v) == "std::mutex &" and not v.get("storageClass") and not v.get("tls"):
+                    # a named reference to a mutex: no statement of its own, later guards may lock through it
+                    init = [strip(c) for c in inner(v)]
+                    m = self.mutex_of(init[0]) if len(init) == 1 else None
+                    if m:
+                        self.aliases[v.get("id")] = m
+                        return []
                 if GUARD_TYPE.match(desugared(v)) and not v.get("storageClass") and not v.get("tls"):
                     init = [strip(c) for c in inner(v)]
                     if len(init) == 1 and init[0].get("kind") == "CXXConstructExpr":
@@ -233,6 +258,14 @@ class SinkReader:
             if len(parts) == 1:
                 callee = strip(parts[0])
                 if callee.get("kind") == "MemberExpr" and callee.get("name") == "flush" and self.is_stream(inner(callee)[0]):
+                    return ["SFlush"]
+        if e.get("kind") == "CallExpr":
+            # std::flush(stream)
+            parts = inner(e)
+            if len(parts) == 2:
+                callee = strip(parts[0])
+                ref = callee.get("referencedDecl") or {}
+                if callee.get("kind") == "DeclRefExpr" and ref.get("kind") == "FunctionDecl" and ref.get("name") == "flush" and self.is_stream(parts[1]):
                     return ["SFlush"]
         self.notes.append("unrecognised statement of kind %s" % k)
         return ["SUnknown"]
